@@ -17,6 +17,7 @@ RULE = ("Generated expression trees (recursive Hypothesis strategy, depth <= 6) 
         "* observable -> ValueError, str/None/list/tensor operands -> TypeError, at build time. Non-trivial = depth >= 3 with a "
         "reflected operator (scalar - obs or scalar * obs) and a subtraction.")
 RULE_EXT = ('Extended as built: every expression is evaluated in two passes (operand re-evaluation), leaves shared by several parents, same-named leaves, coefficients 1e-9..1e9, integer (long) sample batches with tolerance 1e-5 (float32 promotion). Rounds 5-6: batch tensor advanced in place and parameters changed in place between applications of the same composite; first result held across later applications; in-place edit of a result does not leak; numpy int64/int32/float32 and Fraction operands either refused or evaluated as that number; float32 (integer-batch) tolerance relative to the sum of term magnitudes.')
+RULE_EXT += ' Round 10 (after an exception / long time axis): chained sums of 13-24 levels through the left operand starting from a scalar, 0 or an expression; composites containing a user observable that raises in one evaluation (caught) and are evaluated again.'
 RULE = RULE + " " + RULE_EXT
 ASSUMPTIONS = ["rtol 1e-12 (+1e-12 absolute); float scalars are 0 or >= 1e-3 in magnitude (no denormal-range products)", "numpy integer scalars are not Python ints and are not generated (the library documents int/float)"]
 
